@@ -387,25 +387,45 @@ def rule_split(ctx: Ctx, prog: Program) -> None:
                 else:
                     ctx.ok("R-SPLIT", "stores go through the deep copy only")
                 dom_stores = [e for e in stores if e.root == f"{croot}.shr_domains_lst"]
-                if len(dom_stores) != 1 or len(dom_stores[0].idx) != 1 or not (dom_stores[0].idx[0] == var):
+                whole = [e for e in dom_stores if len(e.idx) == 1]
+                elems = [e for e in dom_stores if len(e.idx) == 2]
+                cell_ok = all(e.idx[0] == var for e in dom_stores) and (
+                    (len(whole) == 1 and not elems) or
+                    (not whole and len(elems) == 2 and sorted(x.idx[1].c for x in elems if isinstance(x.idx[1], Aff) and x.idx[1].is_const()) == [0, 1]))
+                if not cell_ok:
                     ctx.violation("R-SPLIT", fn.path, "Problem.split", "single-cell", fn.loc(),
                                   "each part must differ from the original in exactly the split variable's domain")
                     continue
-                e = dom_stores[0]
-                val = e.value
-                if not (isinstance(val, Tup) or (isinstance(as_view(val), View))):
-                    pass
+                if elems:
+                    # narrowing in place is confined to the split variable only if no other position holds the same list object: the deep
+                    # copy preserves sharing, so every writer of the domain list must store lists created on the spot
+                    fresh, sites, nw = domain_lists_fresh(prog)
+                    if not fresh:
+                        ctx.violation("R-SPLIT", fn.path, "Problem.split", "single-cell:aliased-domain-lists", f"{fn.path}:{elems[0].line}",
+                                      f"split narrows the split variable's [min, max] list in place, and {sites[0][0]} (line {sites[0][1]}) stores a "
+                                      "domain list it did not create: two positions written as the same list object (e.g. [[0, n-1]] * n) stay the "
+                                      "same object in the deep copy, so the part narrows every one of them -- solutions are lost")
+                        continue
+                    ctx.ok("R-SPLIT", "in-place narrowing: every writer of the domain list stores lists created on the spot", sample={"writers": nw})
                 items = None
-                if isinstance(val, Tup) and len(val.items) == 2:
-                    items = [it.scalar(s, x) for x in val.items]
+                e = dom_stores[0]
+                if elems:
+                    pm_ = _part_bounds(it, bp)
+                    items = pm_
                 else:
-                    # the interpreter coerces list literals to an opaque scalar when storing; re-evaluate the node
-                    node = e.node.value if isinstance(e.node, ast.Assign) else None
-                    if isinstance(node, (ast.List, ast.Tuple)) and len(node.elts) == 2:
-                        items = []
-                        for el in node.elts:
-                            if isinstance(el, ast.Name) and el.id in s.env:
-                                items.append(it.scalar(s, s.env[el.id]))
+                    val = e.value
+                    if isinstance(val, Tup) and len(val.items) == 2:
+                        items = [it.scalar(s, x) for x in val.items]
+                    else:
+                        # the interpreter coerces list literals to an opaque scalar when storing; re-evaluate the node
+                        node = e.node.value if isinstance(e.node, ast.Assign) else None
+                        if isinstance(node, (ast.List, ast.Tuple)) and len(node.elts) == 2:
+                            items = []
+                            for el in node.elts:
+                                if isinstance(el, ast.Name) and el.id in s.env:
+                                    items.append(it.scalar(s, s.env[el.id]))
+                            if len(items) != 2:
+                                items = None
                 if items is None:
                     ctx.violation("R-SPLIT", fn.path, "Problem.split", "part-domain", f"{fn.path}:{e.line}", "cannot read the part's [min, max]")
                     continue
@@ -489,9 +509,14 @@ def rule_split(ctx: Ctx, prog: Program) -> None:
 
 
 def _part_bounds(it, bp):
-    """[min, max] stored into the copy's domain list on this body path, or None."""
+    """[min, max] stored into the copy's domain list on this body path, or None.  Two forms: the cell is replaced by a fresh pair, or
+    its two elements are overwritten in place."""
+    inplace = {}
     for e in bp.events:
         if e.kind == "store" and e.root and e.root.endswith(".shr_domains_lst") and not e.root.startswith("self."):
+            if len(e.idx) == 2 and isinstance(e.idx[1], Aff) and e.idx[1].is_const() and e.idx[1].c in (0, 1):
+                inplace[e.idx[1].c] = it.scalar(bp.state, e.value)
+                continue
             val = e.value
             if isinstance(val, Tup) and len(val.items) == 2:
                 return [it.scalar(bp.state, x) for x in val.items]
@@ -503,7 +528,72 @@ def _part_bounds(it, bp):
                         items.append(it.scalar(bp.state, bp.state.env[el.id]))
                 if len(items) == 2:
                     return items
+    if len(inplace) == 2:
+        return [inplace[0], inplace[1]]
     return None
+
+
+def _fresh_pair(prog: Program, mod: str, e: ast.expr, elem: str, depth: int = 0) -> bool:
+    """Is the expression a list object created at this point (so that no two positions of the domain list, and no caller-owned object,
+    can be the same object)?  `elem` is the name of the value being converted."""
+    if isinstance(e, (ast.List, ast.ListComp)):
+        return True
+    if isinstance(e, ast.IfExp):
+        return _fresh_pair(prog, mod, e.body, elem, depth) and _fresh_pair(prog, mod, e.orelse, elem, depth)
+    if isinstance(e, ast.Call) and isinstance(e.func, ast.Name) and e.func.id == "list" and len(e.args) == 1:
+        return True
+    if isinstance(e, ast.Call) and isinstance(e.func, ast.Name) and depth < 3:
+        r = prog.resolve(mod, e.func.id)
+        if r and r[0] == "func":
+            f = r[1]
+            rets = [n for n in ast.walk(f.node) if isinstance(n, ast.Return)]
+            return bool(rets) and all(n.value is not None and _fresh_pair(prog, f.module, n.value, elem, depth + 1) for n in rets)
+    return False
+
+
+def domain_lists_fresh(prog: Program) -> Tuple[bool, List[Tuple[str, int]], int]:
+    """Every writer of Problem.shr_domains_lst stores lists created on the spot: (all fresh, offending sites, writers seen)."""
+    m = prog.modules.get(f"{prog.package}.{PB_MOD}")
+    if m is None:
+        raise AnalysisError("anchor module vanished: problems.problem")
+    bad: List[Tuple[str, int]] = []
+    n = 0
+    for meth, f in m.classes.get("Problem", {}).items():
+        for node in ast.walk(f.node):
+            elts: List[ast.expr] = []
+            if isinstance(node, ast.Assign) and any(isinstance(t, ast.Attribute) and t.attr == "shr_domains_lst" and isinstance(t.value, ast.Name) and t.value.id == "self"
+                                                    for t in node.targets):
+                v = node.value
+                if isinstance(v, ast.ListComp):
+                    elts = [v.elt]
+                elif isinstance(v, ast.List):
+                    elts = list(v.elts)
+                else:
+                    bad.append((f"Problem.{meth}", node.lineno))
+                    n += 1
+                    continue
+            elif isinstance(node, ast.Call) and isinstance(node.func, ast.Attribute) and node.func.attr in ("append", "extend", "insert") \
+                    and isinstance(node.func.value, ast.Attribute) and node.func.value.attr == "shr_domains_lst" \
+                    and isinstance(node.func.value.value, ast.Name) and node.func.value.value.id == "self" and node.args:
+                a = node.args[-1]
+                if node.func.attr == "extend":
+                    if isinstance(a, ast.ListComp):
+                        elts = [a.elt]
+                    elif isinstance(a, ast.List):
+                        elts = list(a.elts)
+                    else:
+                        bad.append((f"Problem.{meth}", node.lineno))
+                        n += 1
+                        continue
+                else:
+                    elts = [a]
+            else:
+                continue
+            n += 1
+            for el in elts:
+                if not _fresh_pair(prog, m.name, el, ""):
+                    bad.append((f"Problem.{meth}", node.lineno))
+    return (not bad, bad, n)
 
 
 def _ret_line_of(r) -> int:
@@ -518,6 +608,40 @@ def _v(ctx: Ctx, fn: FuncInfo, okk: bool, inst: str, e: Event, msg: str) -> None
         ctx.ok("R-SPLIT", inst)
     else:
         ctx.violation("R-SPLIT", fn.path, "Problem.split", inst.split(":")[0].replace(" ", "-"), f"{fn.path}:{e.line}", msg)
+
+
+# ------------------------------------------------------------------------------------------ R-DOMAIN-LISTS
+def rule_domain_lists(ctx: Ctx, prog: Program) -> None:
+    """A model may write several domains as one Python object (`[[0, n - 1]] * n`, a reused list variable) or as distinct objects: the
+    two writings mean the same.  They behave the same as long as either (a) every writer of Problem.shr_domains_lst stores [min, max]
+    lists created on the spot, or (b) no code of the package overwrites an element of such a list in place.  Rule: if some function
+    stores into `<problem>.shr_domains_lst[i][k]`, then (a) must hold."""
+    ctx.rule("R-DOMAIN-LISTS")
+    sites: List[Tuple[str, str, int, str]] = []
+    for f in prog.all_functions():
+        for node in ast.walk(f.node):
+            tgts: List[ast.expr] = []
+            if isinstance(node, ast.Assign):
+                tgts = list(node.targets)
+            elif isinstance(node, (ast.AugAssign, ast.AnnAssign)):
+                tgts = [node.target]
+            for t in tgts:
+                for tt in (t.elts if isinstance(t, ast.Tuple) else [t]):
+                    if isinstance(tt, ast.Subscript) and isinstance(tt.value, ast.Subscript) and isinstance(tt.value.value, ast.Attribute) \
+                            and tt.value.value.attr == "shr_domains_lst":
+                        sites.append((f.path, ast.unparse(tt), node.lineno, f.qualname))
+    fresh, bad, nw = domain_lists_fresh(prog)
+    ctx.floor("R-DOMAIN-LISTS", nw, 3)
+    if sites and not fresh:
+        rel, txt, line, qn = sites[0]
+        ctx.violation("R-DOMAIN-LISTS", rel, qn, "aliased-domain-lists", f"{rel}:{line}",
+                      f"`{txt} = ...` overwrites an element of a domain's [min, max] list in place, and {bad[0][0]} (line {bad[0][1]}) stores a domain "
+                      "list it did not create: a model that writes two domains as the same list object (e.g. [[0, n-1]] * n) no longer behaves "
+                      "like the same model written with distinct objects or tuples")
+    else:
+        ctx.ok("R-DOMAIN-LISTS", "no in-place store into a domain's [min, max] list" if not sites else
+               "in-place stores into domain lists, and every writer of the domain list stores lists created on the spot",
+               sample={"in_place_sites": len(sites), "writers": nw, "all_fresh": fresh})
 
 
 # ------------------------------------------------------------------------------------------ R-OPTIONAL-ZERO
@@ -543,7 +667,9 @@ def rule_optional_zero(ctx: Ctx, prog: Program) -> None:
         # the parameter may be re-bound after its 'is None' resolution; only uses before the first assignment to it are concerned
         for node in ast.walk(f.node):
             bad = None
-            if isinstance(node, ast.BoolOp) and isinstance(node.op, ast.Or) and isinstance(node.values[0], ast.Name) and node.values[0].id in opt_int:
+            if isinstance(node, ast.BoolOp) and isinstance(node.op, ast.Or) and isinstance(node.values[0], ast.Name) and node.values[0].id in opt_int \
+                    and not (len(node.values) == 2 and isinstance(node.values[1], ast.Constant) and type(node.values[1].value) is int and node.values[1].value == 0):
+                # (`x or 0` is exempt: the value 0 and 'not given' resolve to the same 0)
                 bad = (node.values[0].id, f"`{ast.unparse(node)}`")
             if isinstance(node, (ast.If, ast.IfExp, ast.While)):
                 t = node.test
